@@ -82,6 +82,15 @@ def c03Ledger (prev next : Obs) (op : Op) : List String :=
     match next.orders[tr.active]?, next.orders[tr.passive]? with
     | some a, some p => admits a tr.price && admits p tr.price
     | _, _ => false) ++
+  -- "the ids of the aggressive and the passive order": the aggressor of every new record is the order this operation
+  -- placed or re-priced, the passive one was resting (Active) before the operation
+  chk "trade_roles" (newT.all fun tr =>
+    let subject : Option Nat := match op with
+      | .place i | .ev (.new i) | .modify i _ _ | .ev (.modify i _ _) => some i
+      | .cap .. => some prev.orders.length
+      | _ => none
+    subject == some tr.active &&
+      (match prev.orders[tr.passive]? with | some po => po.status = .active | none => false)) ++
   chk "volume_conserved" ((List.range next.orders.length).all fun i =>
     match volBase prev next op i, next.orders[i]? with
     | some base, some no => decide (base = no.vol + tradedVolOf newT i)
